@@ -307,6 +307,8 @@ def enc_attr(name: str, value, o: dict, asn4: bool) -> bytes:
         return A(R.A_CLUSTER, b''.join(ipaddress.IPv4Address(v).packed for v in value), 0x80)
     if name == 'ext':
         return A(R.A_EXT_COMMUNITY, b''.join(bytes.fromhex(v) for v in value), 0xC0)
+    if name == 'aigp':
+        return R.attribute(R.A_AIGP, b'\x01\x00\x0b' + int(value).to_bytes(8, 'big'))
     if name == 'large':
         return A(R.A_LARGE_COMMUNITY, b''.join(a.to_bytes(4, 'big') + b.to_bytes(4, 'big') + c.to_bytes(4, 'big') for a, b, c in value), 0xC0)
     if name == 'unknown':
@@ -387,6 +389,8 @@ def canon_json_attrs(a: dict) -> dict:
             pass
         elif k == 'med':
             out['med'] = v
+        elif k == 'aigp':
+            out['aigp'] = int(v, 16) if isinstance(v, str) else v  # exabgp prints the metric as 0x%016x
         elif k == 'local-preference':
             out['local_pref'] = v
         elif k == 'atomic-aggregate':
@@ -415,9 +419,10 @@ def canon_json_attrs(a: dict) -> dict:
     return out
 
 
-def canon_ref_attrs(a: dict) -> dict:
+def canon_ref_attrs(a: dict, keep_aigp: bool = False) -> dict:
     c = R.canonical_attrs(a)
-    c.pop('aigp', None)
+    if not keep_aigp:
+        c.pop('aigp', None)  # sessions without the AIGP option discard it (RFC 7311 3.2)
     if 'as_path' in c:
         # ExaBGP splits nothing on reception; the reference keeps the segments as received
         c['as_path'] = _join(c['as_path'])
@@ -471,13 +476,13 @@ def parse_event(line: str) -> dict:
     return {'announce': sorted(ann, key=repr), 'withdraw': sorted(wd, key=repr), 'attrs': canon_json_attrs(u.get('attribute', {}))}
 
 
-def expected_event(body: bytes, ctx) -> dict:
+def expected_event(body: bytes, ctx, keep_aigp: bool = False) -> dict:
     d = R.decode_update(body, ctx)
     if d['eor'] is not None:
         return {'eor': tuple(d['eor'])}
     ann = [(canon_ref_nlri(n), _nh_text(nhs)) for n, nhs in d['announce']]
     wd = [_wd(canon_ref_nlri(n, True)) for n in d['withdraw']]
-    return {'announce': sorted(ann, key=repr), 'withdraw': sorted(wd, key=repr), 'attrs': canon_ref_attrs(d['attrs'])}
+    return {'announce': sorted(ann, key=repr), 'withdraw': sorted(wd, key=repr), 'attrs': canon_ref_attrs(d['attrs'], keep_aigp)}
 
 
 def _wd(t: tuple) -> tuple:
